@@ -957,6 +957,9 @@ def _present(item):
 @prop('C10')
 def C10(run):
     broken = lean_gate(run, THEOREMS['C10'])
+    if not broken:
+        from props import moves_gate
+        broken = broken + moves_gate(run)      # which ballots a transfer touches; no rule uses a ballot's position in the list
     rng = rng_for(run)
     n = budget(run, 3000, 60000)
     cases = campaign.make_cases(rng, n, ALL, equal_ranks=0.2)
